@@ -192,7 +192,7 @@ func genFloat(t *rapid.T) Case {
 // not in scope (the statement's "rounding distance" presumes no overflow).
 func genWide(t *rapid.T) Case {
 	c := genInt(t)
-	e := rapid.SampledFrom([]int{-1074, -1060, -1040, -1022, -1000, -560, -540, -520, 480, 500, 512, 980, 1000, 1002}).Draw(t, "wexp")
+	e := rapid.SampledFrom([]int{-1074, -1060, -1040, -1022, -1000, -560, -540, -531, -528, -525, -520, -512, 480, 490, 500, 512, 980, 1000, 1002}).Draw(t, "wexp")
 	for i := range c.P {
 		for j := range c.P[i] {
 			v := math.Ldexp(c.P[i][j].V(), e)
